@@ -98,7 +98,7 @@ func (c *completion) completeOptionNames(s *parseState, prefix string, match str
 	}
 
 	var results []Completion
-	repeats := map[string]bool{}
+	repeats := map[*Option]bool{}
 
 	for name, opt := range s.lookup.longNames {
 		if strings.HasPrefix(name, match) && !opt.Hidden {
@@ -108,14 +108,16 @@ func (c *completion) completeOptionNames(s *parseState, prefix string, match str
 			})
 
 			if short {
-				repeats[string(opt.ShortName)] = true
+				repeats[opt] = true
 			}
 		}
 	}
 
 	if short {
 		for name, opt := range s.lookup.shortNames {
-			if _, exist := repeats[name]; !exist && strings.HasPrefix(name, match) && !opt.Hidden {
+			// an option already offered by its long name is not offered a
+			// second time; a different option with the same letter is
+			if !repeats[opt] && strings.HasPrefix(name, match) && !opt.Hidden {
 				results = append(results, Completion{
 					Item:        string(defaultShortOptDelimiter) + name,
 					Description: opt.Description,
